@@ -92,6 +92,7 @@ type Exec struct {
 	Viol    []Violation
 	Steps   []*StepRecord
 	step    int
+	clockTicks int
 	// twoPass: a run with an unrecorded first pass happened (see violate)
 	twoPass bool
 	// loadBroken: the scenario broke a source file or go.mod on purpose.
@@ -152,6 +153,35 @@ func (x *Exec) workerWith(fresh bool, gomaxprocs int) (*wk.Worker, error) {
 
 func (x *Exec) pkgDir(pi int) string { return filepath.Join(x.Root, x.Sc.Module.Pkgs[pi].Dir) }
 
+// writeWithClock writes a file the way an external party with its own clock does (Op.MTime).
+func (x *Exec) writeWithClock(path string, content []byte, policy string) error {
+	var before time.Time
+	if st, err := os.Stat(path); err == nil {
+		before = st.ModTime()
+	}
+	if err := os.WriteFile(path, content, 0o644); err != nil {
+		return err
+	}
+	var t time.Time
+	switch policy {
+	case "":
+		return nil
+	case "keep":
+		if before.IsZero() {
+			return nil
+		}
+		t = before
+	case "past":
+		x.clockTicks++
+		t = time.Date(2001, 2, 3, 4, 5, 6, 0, time.UTC).Add(time.Duration(x.clockTicks) * time.Second)
+	case "future":
+		x.clockTicks++
+		t = time.Date(2037, 2, 3, 4, 5, 6, 0, time.UTC).Add(time.Duration(x.clockTicks) * time.Second)
+	}
+	x.Env.Stats.Add("fault/clock-"+policy, 1)
+	return os.Chtimes(path, t, t)
+}
+
 // RunOps executes ops in order.
 func (x *Exec) RunOps(ops []Op) error {
 	for i := range ops {
@@ -178,7 +208,7 @@ func (x *Exec) Do(op Op) error {
 		if err := os.MkdirAll(filepath.Dir(p), 0o755); err != nil {
 			return infra("edit: %v", err)
 		}
-		if err := os.WriteFile(p, []byte(op.Content), 0o644); err != nil {
+		if err := x.writeWithClock(p, []byte(op.Content), op.MTime); err != nil {
 			return infra("edit: %v", err)
 		}
 		x.Env.Stats.Add("op/edit", 1)
@@ -192,7 +222,10 @@ func (x *Exec) Do(op Op) error {
 			if f.Name == op.Path {
 				x.touches++
 				content := m.FileSource(op.K, f, fi == 0) + fmt.Sprintf("\n// edit %d %s\n", x.touches, op.Note)
-				if err := os.WriteFile(filepath.Join(x.Root, p.Dir, f.Name), []byte(content), 0o644); err != nil {
+				if op.SameSize {
+					content = m.FileSource(op.K, f, fi == 0) + fmt.Sprintf("\n// edit %06d\n", x.touches)
+				}
+				if err := x.writeWithClock(filepath.Join(x.Root, p.Dir, f.Name), []byte(content), op.MTime); err != nil {
 					return infra("touch: %v", err)
 				}
 			}
@@ -221,7 +254,7 @@ func (x *Exec) Do(op Op) error {
 				return false
 			}
 			if visit(f.Decls) {
-				if err := os.WriteFile(filepath.Join(x.Root, p.Dir, f.Name), []byte(m.FileSource(op.K, f, fi == 0)), 0o644); err != nil {
+				if err := x.writeWithClock(filepath.Join(x.Root, p.Dir, f.Name), []byte(m.FileSource(op.K, f, fi == 0)), op.MTime); err != nil {
 					return infra("retag: %v", err)
 				}
 			}
